@@ -208,6 +208,24 @@ func main() {
 					return true
 				})
 			}
+			if fd := f.Func("AsyncSearcher", "doSearch"); fd != nil {
+				var lookups []string
+				ast.Inspect(fd.Body, func(n ast.Node) bool {
+					if rs, ok := n.(*ast.RangeStmt); ok && strings.Contains(f.Render(rs.Body), "fracsByName[") {
+						x := f.Render(rs.X)
+						// resolve a local slice to its definition
+						ast.Inspect(fd.Body, func(m ast.Node) bool {
+							if as, ok := m.(*ast.AssignStmt); ok && len(as.Lhs) == 1 && f.Render(as.Lhs[0]) == x {
+								x = f.Render(as.Rhs[0])
+							}
+							return true
+						})
+						lookups = append(lookups, x)
+					}
+					return true
+				})
+				e.Strs("doSearchFracLookup", lookups, "doSearch: the fraction list the recorded names are looked up in")
+			}
 			e.Strs("resumeCalls", resume, "calls MustStartAsync makes for every unfinished request")
 			e.Strs("doSearchFractionLoop", loops, "what the processFrac loop of doSearch ranges over")
 			e.Strs("fractionsWrites", fracWrites, "every write of a Fractions field: function: statement")
@@ -406,6 +424,55 @@ func main() {
 				}
 				e.Bool("proxyAsyncPaginates", pag, "Ingestor.FetchAsyncSearchResult paginates the merged IDs with (Offset, Size)")
 			}
+		}
+		// seq.AggFunc <-> wire AggFunc (pkg/storeapi/mappings.go): the table, how its inverse is built, who reads what
+		if mp, err := r.Load("pkg/storeapi/mappings.go"); err != nil {
+			e.Missing("pkg/storeapi/mappings.go", err)
+		} else {
+			var table, inv, uses []string
+			ast.Inspect(mp.AST, func(n ast.Node) bool {
+				switch x := n.(type) {
+				case *ast.ValueSpec:
+					if len(x.Names) == 1 && x.Names[0].Name == "funcMappings" && len(x.Values) == 1 {
+						if cl, ok := x.Values[0].(*ast.CompositeLit); ok {
+							for _, el := range cl.Elts {
+								if kv, ok := el.(*ast.KeyValueExpr); ok {
+									table = append(table, mp.Render(kv.Key)+": "+mp.Render(kv.Value))
+								}
+							}
+						}
+					}
+					if len(x.Names) == 1 && x.Names[0].Name == "funcMappingsPb" && len(x.Values) == 1 {
+						ast.Inspect(x.Values[0], func(m ast.Node) bool {
+							switch y := m.(type) {
+							case *ast.RangeStmt:
+								inv = append(inv, "for "+mp.Render(y.Key)+", "+mp.Render(y.Value)+" := range "+mp.Render(y.X))
+							case *ast.AssignStmt:
+								if y.Tok == token.ASSIGN {
+									inv = append(inv, mp.Render(y))
+								}
+							}
+							return true
+						})
+					}
+				}
+				return true
+			})
+			for _, fn := range [][2]string{{"AggFunc", "ToAggFunc"}, {"AggFunc", "MustAggFunc"}, {"", "ToProtoAggFunc"}} {
+				if fd := mp.Func(fn[0], fn[1]); fd != nil {
+					ast.Inspect(fd.Body, func(m ast.Node) bool {
+						if rs, ok := m.(*ast.ReturnStmt); ok && len(rs.Results) >= 1 {
+							if ix, ok := rs.Results[0].(*ast.IndexExpr); ok {
+								uses = append(uses, fn[1]+": "+mp.Render(ix))
+							}
+						}
+						return true
+					})
+				}
+			}
+			e.Strs("aggFuncTable", table, "funcMappings: seq.AggFunc -> wire AggFunc")
+			e.Strs("aggFuncInverse", inv, "funcMappingsPb: built as the inverse of funcMappings")
+			e.Strs("aggFuncUses", uses, "which table each conversion indexes")
 		}
 		// key codec
 		if q, err := r.Load("seq/qpr.go"); err != nil {
